@@ -8,7 +8,8 @@
   section, faults and the Go scheduler are runtime facts: validated by the race-detector stress, not
   proved (DESIGN, C10: partial).
 -/
-import Pogreb.Props.C07
+import Pogreb.Locking
+import Pogreb.Spec
 namespace Pogreb
 
 open Pogreb.Locking Pogreb.Generated
